@@ -24,5 +24,10 @@ Emit == PrintT("CASE " \o ToJson(c))
 CpuKinds == {"none", "unknown_mnemonic", "nine_operands", "unknown_mnemonic_in_if", "db_range"}
 Terms == {"eof", "end", "dotend"}
 CpuCases == [kind : CpuKinds, pos : Pos, term : Terms, stale : BOOLEAN]
+\* what is at the output path before the run, other than a plain file: a symbolic link to the image of an earlier run
+\* (in the same directory, in a subdirectory); after a failed run nothing may be found at the output path
+LinkCases == [kind : {"none", "unknown_mnemonic", "undefined_symbol", "db_range", "if_malformed", "macro_unterminated"},
+              how : {"symlink", "symlink_subdir"}, type : Types, pos : {"first", "last"}]
+EmitLink == (c.kind = "none" /\ c.pos = "first" /\ c.wrap = "none" /\ ~c.stale /\ c.base = 1 /\ c.type = "hex") => PrintT("LINKCASES " \o ToJson(LinkCases))
 EmitCpu == (c.kind = "none" /\ c.pos = "first" /\ c.wrap = "none" /\ ~c.stale /\ c.base = 1 /\ c.type = "hex") => PrintT("CPUCASES " \o ToJson(CpuCases))
 =============================================================================
